@@ -121,7 +121,7 @@ impl Check for C10 {
     }
     fn run(case: &History, ctx: &Ctx) -> Result<CaseInfo, Violation> {
         match case.cfg.hasher {
-            HasherKind::Blake3 => run_twin::<B3>(case, ctx),
+            HasherKind::Blake3 | HasherKind::TailLabel => run_twin::<B3>(case, ctx),
             HasherKind::Sha2 => run_twin::<S2>(case, ctx),
         }
     }
